@@ -132,19 +132,19 @@ class MultiObjectiveProblem(Problem[P]):
             return float("-inf")
         return sum(signed)
 
+    def ensure_initialized(self, number_of_components: int) -> None:
+        """Both minimize and n_objectives are lazy, to support an unknown number of objectives: the first time an
+        individual is evaluated they are filled in (also by an evaluator that had the evaluation done elsewhere)."""
+        if not self.initialized:
+            if isinstance(self.minimize, bool):
+                self.minimize = [bool(self.minimize) for _ in range(number_of_components)]
+            self.n_objectives = number_of_components
+            self.initialized = True
+
     def evaluate(self, phenotype: P) -> Fitness:
         lst: list[float] = self.ff["ff"](phenotype)
         multiple = [float(x) for x in lst]
-        if not self.initialized:
-            """
-            Both minimize and n_objectives are lazy, to support an unknown number of objectives.
-
-            The first time an individual is evaluated, we initialize the minimize and n_objectives array if needed.
-            """
-            if isinstance(self.minimize, bool):
-                self.minimize = [bool(self.minimize) for _ in multiple]
-            self.n_objectives = len(multiple)
-            self.initialized = True
+        self.ensure_initialized(len(multiple))
         if self.ff["aggregate_fitness"] is None and self.default_merge:
             single = self.merge_components(multiple)  # from the components just computed: one invocation per evaluation
         elif self.ff["aggregate_fitness"] is None:
